@@ -370,3 +370,69 @@ Fixpoint mk_exec (c : lstmt) (x : lenv) (s : mk_st) : option mk_st :=
                     end
   | _ => None
   end.
+
+(* ------------------------------------------------------------------ calculate_covariant_classes *)
+
+Inductive cvstmt :=
+| VSkip
+| VSeq (a b : cvstmt)
+| VReturnIfDone                     (* if (!cls.covariant_classes.empty()) return; *)
+| VInsertSelf                       (* cls.covariant_classes.insert(&cls) *)
+| VForDerived (body : cvstmt)       (* for (auto derived : cls.direct_derived) *)
+| VIfDerivedFresh (body : cvstmt)   (* if (derived->covariant_classes.empty()) *)
+| VRecurse                          (* calculate_covariant_classes( *derived) *)
+| VCopyDerived.                     (* every element of derived->covariant_classes inserted into cls.covariant_classes *)
+
+Inductive cvres := VGo (cov : list (list nat)) | VRet (cov : list (list nat)) | VFault.
+
+(* the sets are kept as strictly increasing lists, as Model.Compile keeps them (the real ones are unordered_sets) *)
+Definition set_add_all (src dst : list nat) : list nat := fold_left (fun a y => insert_sorted y a) src dst.
+
+Section Cov.
+  Variable derived : list (list nat).
+  Variable rec : nat -> list (list nat) -> option (list (list nat)).     (* the function itself, one level down *)
+
+  Section VLoop.
+    Variable step : nat -> list (list nat) -> cvres.
+    Fixpoint vfor (xs : list nat) (cov : list (list nat)) : cvres :=
+      match xs with [] => VGo cov | a :: r => match step a cov with VGo cov' => vfor r cov' | other => other end end.
+  End VLoop.
+
+  Fixpoint cv_exec (s : cvstmt) (c : nat) (d : option nat) (cov : list (list nat)) : cvres :=
+    match s with
+    | VSkip => VGo cov
+    | VSeq a b => match cv_exec a c d cov with VGo cov' => cv_exec b c d cov' | other => other end
+    | VReturnIfDone => match nth c cov [] with [] => VGo cov | _ :: _ => VRet cov end
+    | VInsertSelf => if Nat.ltb c (length cov) then VGo (set_nth c cov (insert_sorted c (nth c cov []))) else VFault
+    | VForDerived body => vfor (fun x cov' => cv_exec body c (Some x) cov') (nth c derived []) cov
+    | VIfDerivedFresh body => match d with
+                              | Some x => match nth x cov [] with [] => cv_exec body c d cov | _ :: _ => VGo cov end
+                              | None => VFault
+                              end
+    | VRecurse => match d with
+                  | Some x => match rec x cov with Some cov' => VGo cov' | None => VFault end
+                  | None => VFault
+                  end
+    | VCopyDerived => match d with
+                      | Some x => if Nat.ltb c (length cov) then VGo (set_nth c cov (set_add_all (nth x cov []) (nth c cov []))) else VFault
+                      | None => VFault
+                      end
+    end.
+End Cov.
+
+(* the recursion, on explicit fuel (the depth of the calls) *)
+Fixpoint cv_fun (fuel : nat) (body : cvstmt) (derived : list (list nat)) (c : nat) (cov : list (list nat)) : option (list (list nat)) :=
+  match fuel with
+  | 0 => None
+  | S f => match cv_exec derived (cv_fun f body derived) body c None cov with
+           | VGo cov' | VRet cov' => Some cov'
+           | VFault => None
+           end
+  end.
+
+(* for (auto& rtc : classes) calculate_covariant_classes(rtc); *)
+Fixpoint cv_all (fuel : nat) (body : cvstmt) (derived : list (list nat)) (cs : list nat) (cov : list (list nat)) : option (list (list nat)) :=
+  match cs with
+  | [] => Some cov
+  | c :: r => match cv_fun fuel body derived c cov with Some cov' => cv_all fuel body derived r cov' | None => None end
+  end.
